@@ -6,6 +6,7 @@ are recorded and advance the clock); oracle = exact rational tempo-map
 integral (fractions.Fraction) and the scheduling equation
 yield_time == max(scheduled_time, time_the_generator_was_resumed).
 """
+import math
 import random
 from fractions import Fraction
 
@@ -79,8 +80,15 @@ def rand_file(rng):
                 tr.append(MetaMessage('set_tempo', tempo=tempo, time=d))
                 if rng.random() < 0.2:
                     tr.append(MetaMessage('set_tempo', tempo=rng.randrange(2 ** 24), time=0))
-            elif r < 0.35:
+            elif r < 0.30:
                 tr.append(MetaMessage('marker', text='m', time=d))
+            elif r < 0.35:
+                # other meta events that musicians read as "tempo-like" but that do not change the tick length
+                tr.append(rng.choice((MetaMessage('time_signature', numerator=6, denominator=8, time=d),
+                                      MetaMessage('time_signature', numerator=2, denominator=2, time=d),
+                                      MetaMessage('time_signature', numerator=7, denominator=16, clocks_per_click=12, time=d),
+                                      MetaMessage('key_signature', key='F#m', time=d),
+                                      MetaMessage('smpte_offset', frame_rate=25, hours=1, time=d))))
             elif r < 0.4:
                 tr.append(Message('sysex', data=(1, 2), time=d))
             else:
@@ -212,12 +220,14 @@ def judge_play(ctx, mid, model, pattern, oversleep, meta_messages, seed):
     total = float(model[-1][1])
     typical = (total / max(len(model), 1)) or 0.001
     clock = FakeTime(oversleep)
+    # the supplied clock may count from zero (a stream position), from a negative value, or be huge
+    clock.now = rng.choice((1000.0, 0.0, 0.0, -50.0, 1.7e9))
     orig = mf.time
     mf.time = clock
     try:
         gen = mid.play(meta_messages=meta_messages, now=clock.time)
         # the player may be created long before it is started: playback begins at the first next()
-        clock.now += rng.choice((0.0, 0.0, 3.0, 1000.0))
+        clock.now += rng.choice((0.0, 0.0, 0.0, 3.0, 1000.0))
         start = clock.now
         want = [(w, c) for w, c in model if meta_messages or not w.is_meta]
         idx = 0
@@ -238,7 +248,8 @@ def judge_play(ctx, mid, model, pattern, oversleep, meta_messages, seed):
             ctx.check('play yields the iterated messages (meta on request)', same_but_time(msg, w),
                       'play-messages', case, lambda: {'index': idx, 'got': repr(msg)[:100], 'want': repr(w)[:100]})
             sched = float(exact)
-            tol = REL * max(sched, 1.0) + 1e-9 * max(typical, 1e-9)
+            # (readings of a clock near 1.7e9 are only exact to a quarter of a microsecond)
+            tol = REL * max(sched, 1.0) + 1e-9 * max(typical, 1e-9) + 16 * math.ulp(abs(start) + abs(y))
             ctx.check('never early', (y - start) >= sched - tol, 'early', case,
                       lambda: {'index': idx, 'yielded_at': y - start, 'scheduled': sched})
             if oversleep == 0.0:
@@ -268,7 +279,7 @@ def judge_play(ctx, mid, model, pattern, oversleep, meta_messages, seed):
             import bisect
             j = bisect.bisect_left(scheds, target)
             near = min((abs(scheds[k] - target) for k in (j - 1, j) if 0 <= k < len(scheds)), default=1e9)
-            if near > REL * max(target, 1.0) + 1e-9 * max(typical, 1e-9):
+            if near > REL * max(target, 1.0) + 1e-9 * max(typical, 1e-9) + 16 * math.ulp(abs(start) + abs(at)):
                 bad = {'at': at - start, 'sleep': d, 'target': target, 'why': 'does not end at a scheduled time'}
                 break
         ctx.check('sleep == remaining time', bad is None, 'sleep', case, bad)
